@@ -299,6 +299,13 @@ SHADOW = [
      "accumulator-over-template-argument-two-levels"),
     ('defvar z = 5; class R { int z = 1; list<list<int>> l = !foreach(a, [1], !foreach(b, [2], !add(a, b, z))); }', [("z", 2, "z", 1)],
      "field-through-two-bang-scopes-over-global"),
+    # inside the body (and the parent arguments) of a def written in a multiclass: the iterators and defvars of the blocks between
+    # the def and the multiclass come before the template arguments of the multiclass
+    ('class C<int k>; multiclass M<int n> { foreach n = [1, 2] in def _x : C<0> { int w = n; } }', [("n", 2, "n", 1)], "foreach-iterator-over-multiclass-template-argument-in-def-body"),
+    ('class C<int k>; multiclass M<int n> { defvar n = 7; def _x : C<n>; }', [("n", 2, "n", 1)], "defvar-over-multiclass-template-argument-in-parent-argument"),
+    ('class C<int k> { int val = k; } multiclass M<int n> { defvar n = 7; def _x : C<0> { let val = n; } }', [("n", 2, "n", 1)], "defvar-over-multiclass-template-argument-in-let-value"),
+    ('class C<int k>; multiclass M<int n> { foreach i = [1, 2] in { defvar n = i; if !eq(i, 1) then { def _x # i : C<i> { int w = !add(n, 1); } } } def _y : C<n>; }',
+     [("n", 2, "n", 1), ("n", 3, "n", 0)], "block-defvar-over-multiclass-template-argument-then-the-argument-again"),
 ]
 
 
